@@ -104,6 +104,18 @@ fn parse_extends_conditional_type(
 // keyof <type>, -1
 // <type> | <type> , <type> & <type>, <type> in keyof <type>
 fn parse_sub_type(p: &mut LuaDocParser, limit: i32) -> DocParseResult {
+    if !p.enter_level() {
+        return Err(LuaParseError::doc_error_from(
+            &t!("type has too many syntax levels"),
+            p.current_token_range(),
+        ));
+    }
+    let result = parse_sub_type_impl(p, limit);
+    p.leave_level();
+    result
+}
+
+fn parse_sub_type_impl(p: &mut LuaDocParser, limit: i32) -> DocParseResult {
     let uop = LuaOpKind::to_type_unary_operator(p.current_token());
     let mut cm = if uop != LuaTypeUnaryOperator::None {
         let range = p.current_token_range();
